@@ -328,13 +328,14 @@ Proof.
   rewrite A1. unfold finish. rewrite H7. cbn [negb orb].
   constructor; cbn [base tupof trefs ntup frames uaf]; auto.
   - (* R3 *)
-    intros t' Hpos. destruct (N.eqb_spec t t') as [E|Hne].
-    + subst t'. destruct rest as [q|].
+    intros t' Hpos. destruct (N.eqb t t') eqn:Ett.
+    + apply N.eqb_eq in Ett. subst t'. destruct rest as [q|].
       * cbn [fsum f_tup f_own] in *. rewrite N.eqb_refl in *.
         destruct A3 as (r & Hr & Hge); [lia|]. exists r. split; [auto|lia].
       * subst own'. destruct A3 as (r & Hr & Hge); [lia|]. exists r. split; [auto|lia].
-    + rewrite A2 by congruence. specialize (H3 t'). apply N.eqb_neq in Hne.
-      destruct rest as [q|]; cbn [fsum f_tup f_own] in *; rewrite Hne in *; apply H3; lia.
+    + assert (Hne : t' <> t) by (apply N.eqb_neq in Ett; congruence).
+      rewrite A2 by auto. specialize (H3 t'). rewrite Ett in H3.
+      destruct rest as [q|]; cbn [fsum f_tup f_own] in *; try rewrite Ett in *; apply H3; lia.
   - (* R4 *)
     destruct rest as [q|]; [|auto]. intros fr [<-|Hin]; [cbn; tauto|auto].
   - (* R6 *)
@@ -389,8 +390,8 @@ Proof.
               rewrite alookup_aremove_other by congruence. eauto.
         -- intros t Hpos. cbn [osum lookup] in *.
            pose proof (osum_aremove_le a t (tupof rs)) as Hle.
-           destruct (N.eqb_spec (ntup rs) t) as [<-|Hne].
-           ++ rewrite N.eqb_refl. exists 1. split; auto.
+           destruct (N.eqb_spec (ntup rs) t) as [E|Hne].
+           ++ subst t. rewrite N.eqb_refl. exists 1. split; auto.
               rewrite (osum_fresh (ntup rs) (tupof rs)) in Hle by auto.
               rewrite (fsum_fresh (ntup rs) (frames rs)) by auto.
               pose proof (osum_nonneg (ntup rs) (aremove a (tupof rs))). lia.
